@@ -734,9 +734,18 @@ class Vector():
 			new_values = [v for _, v in updates]
 
 			# Object dtype accepts any type - skip validation
+			# None written into a non-nullable column only lifts nullability
+			makes_nullable = (
+				self._dtype is not None
+				and not self._dtype.nullable
+				and any(val is None for val in new_values)
+			)
+
 			if self._dtype is not None and self._dtype.kind is not object:
 				incompatible = None
 				for val in new_values:
+					if val is None:
+						continue
 					try:
 						validate_scalar(val, self._dtype)
 					except TypeError:
@@ -754,6 +763,9 @@ class Vector():
 							f"{self._dtype.kind.__name__} vector. "
 							f"Promotion not supported."
 						)
+
+			if makes_nullable:
+				self._dtype = self._dtype.with_nullable(True)
 		# =====================================================================
 		# MUTATE — copy-on-write + fingerprint updates
 		# =====================================================================
